@@ -50,7 +50,9 @@ def _same_cell_call(g, ctx, sc):
 
 SWEEP_KINDS = ['samecell-cold', 'samecell-other', 'repeat-recent', 'identical-cold', 'sameface-cold',
                'far-cold', 'samecell-hot', 'edge-cold', 'samecell-cold@instr', 'repeat-recent@instr',
-               'coarse-cold', 'coarse-other', 'hier-other']
+               'coarse-cold', 'coarse-other', 'hier-other', 'capacity-256', 'capacity-1024',
+               # thorough tier only (the quick tier runs the first 15 kinds):
+               'capacity-4096', 'capacity-65536', 'capacity-16384', 'capacity-512', 'capacity-2048', 'capacity-1000']
 
 
 def gen_sweep(ctx, rng, kind):
@@ -76,7 +78,16 @@ def gen_sweep(ctx, rng, kind):
 
     wa, wb = rng.randrange(3), rng.randrange(3)
     warm = []
-    if kind in ('coarse-cold', 'coarse-other', 'hier-other'):
+    bulk = None
+    if kind.startswith('capacity-'):
+        # the pair starts 1-3 inserts short of a round capacity: the exhaustive sweep then finds any window in
+        # which B's insert evicts/resets what A still relies on
+        cap = int(kind.split('-')[1])
+        kind = 'capacity'
+        A = geo(sc, rng.choice([0, 1, 1]))
+        B = geo(_same_cell_anchor(g), rng.choice([0, 1, 1]))
+        bulk = {'kind': 'cell_to_lonlat', 'n': max(1, cap - 1 - rng.choice([0, 0, 1, 2])), 'seed': rng.getrandbits(32)}
+    elif kind in ('coarse-cold', 'coarse-other', 'hier-other'):
         mixk = 'coarse' if kind.startswith('coarse') else 'hier'
         fa = wchoice(rng, {'cell_to_children': 4, 'uncompact': 3, 'get_res0_cells': 1, 'compact': 1})
         fb = wchoice(rng, {'cell_to_children': 4, 'uncompact': 3, 'get_res0_cells': 1, 'compact': 1, 'cell_to_parent': 1})
@@ -108,7 +119,8 @@ def gen_sweep(ctx, rng, kind):
     threads = [[A], [B]]
     solo = [[ctx.oracle(c, gran=gran)['steps'] for c in tc] for tc in threads]
     est = sum(sum(x) for x in solo)
-    return {'threads': threads, 'warm': warm, 'plan': {'plan': 'one', 'a': 0, 'k': 0, 'order': [1]}, 'seed': 0,
+    extra = {'bulk': bulk} if bulk else {}
+    return {'threads': threads, 'warm': warm, 'plan': {'plan': 'one', 'a': 0, 'k': 0, 'order': [1]}, 'seed': 0, **extra,
             'budget': 20 * est + 100_000 * (1 if gran == 'line' else 8), 'est_len': est, 'gran': gran, 'post': True,
             'conf': {'T': 2, 'locality': kind, 'mix': 'geo', 'temp': kind.split('-')[-1], 'counts': [1, 1]}}
 
@@ -120,7 +132,7 @@ def gen_spec(ctx, rng, tier, force=None):
     T = force.get('T') or rng.choice([2, 2, 2, 3, 3, 4])
     locality = force.get('locality') or wchoice(rng, {'identical': 10, 'samecell': 15, 'near': 27, 'face': 10, 'edge': 12, 'far': 26})
     mix = force.get('mix') or wchoice(rng, {'forward': 13, 'inverse': 13, 'boundary': 13, 'geo': 31, 'all': 16, 'hier': 6, 'coarse': 8})
-    temp = force.get('temp') or wchoice(rng, {'cold': 40, 'warm': 22, 'hot': 18, 'recent': 12, 'other': 8})
+    temp = force.get('temp') or wchoice(rng, {'cold': 38, 'warm': 21, 'hot': 17, 'recent': 12, 'other': 8, 'capacity': 4})
     gran = force.get('gran') or ('instr' if rng.random() < (0.1 if tier == 'thorough' else 0.04) else 'line')
     counts = [rng.randint(1, 3) for _ in range(T)]
     while sum(counts) > 9:
@@ -166,13 +178,22 @@ def gen_spec(ctx, rng, tier, force=None):
         # state is non-empty but was left by calls about other cells
         for _ in range(rng.randint(1, 2)):
             warm.append(_usable_call(g, ctx, 'geo', g.base()))
+    bulk = None
+    if temp == 'capacity':
+        # the threads start a handful of inserts short of a round capacity (size-bounded caches evict or
+        # reset exactly there, and never in a young process)
+        caps = {64: 6, 128: 6, 256: 6, 512: 6, 1000: 5, 1024: 8, 2048: 5, 4096: 4}
+        if tier == 'thorough':
+            caps.update({8192: 2, 10000: 2, 16384: 2, 32768: 1, 65536: 3})
+        bulk = {'kind': wchoice(rng, {'cell_to_lonlat': 6, 'cell_to_boundary': 2, 'lonlat_to_cell': 2}),
+                'n': max(1, wchoice(rng, caps) - rng.randint(0, 8)), 'seed': rng.getrandbits(32)}
     solo_line = [[ctx.oracle(c)['steps'] for c in tc] for tc in threads]
     if gran == 'instr' and max(max(x) for x in solo_line) > 40_000:
         gran = 'line'                    # instruction granularity only for calls of ordinary size (wall-clock bound)
     solo = solo_line if gran == 'line' else [[ctx.oracle(c, gran='instr')['steps'] for c in tc] for tc in threads]
     est = sum(sum(s) for s in solo)
     budget = 20 * est + 100_000 * (1 if gran == 'line' else 8)
-    plan_kind = force.get('plan') or wchoice(rng, {'rw': 18, 'rwh': 14, 'rwn': 14, 'pct': 10, 'one': 34, 'rr': 10})
+    plan_kind = force.get('plan') or ('rwh' if (bulk and rng.random() < 0.7) else None) or wchoice(rng, {'rw': 18, 'rwh': 14, 'rwn': 14, 'pct': 10, 'one': 34, 'rr': 10})
     if plan_kind == 'rw':
         plan = {'plan': 'rw', 'p': rng.choice(RW_P)}
     elif plan_kind == 'rwh':
@@ -224,6 +245,8 @@ def gen_spec(ctx, rng, tier, force=None):
     }
     if kill:
         spec['kill'] = kill
+    if bulk:
+        spec['bulk'] = bulk
     if rng.random() < 0.1:
         # fault: the clock jumps while the threads are running
         spec['clock_jumps'] = [[rng.randrange(max(1, est)), rng.choice([0.5, 61.0, 3601.0, 86401.0, -10.0])]
